@@ -810,6 +810,11 @@ func (c *Context) Ln(d, x *Decimal) (Condition, error) {
 
 			ed.Add(&tmp1, &tmp1, &tmp4)
 
+			// Once ed holds an error every step above is skipped and tmp4
+			// stops changing, so the convergence test would never succeed.
+			if err := ed.Err(); err != nil {
+				return 0, err
+			}
 			if tmp4.Abs(&tmp4).Cmp(&eps) <= 0 {
 				break
 			}
